@@ -237,8 +237,12 @@ __attribute__((noinline)) static void deep_inner(void (*fn)(void *), void *arg) 
   asm volatile("" ::: "memory");
   (void)pad[0];
 }
+static uint64_t g_stack_garbage_seed;   // != 0: fill the dead stack below every API call with seeded garbage (C07: an
+                                        // uninitialised local must not get the same leftovers in both passes)
 NOASAN __attribute__((noinline)) static void stack_poison(char *lo, char *hi) {
-  for (volatile char *p = lo; p < hi; p++) *p = (char)0xA5;
+  if (!g_stack_garbage_seed) { for (volatile char *p = lo; p < hi; p++) *p = (char)0xA5; return; }
+  uint64_t x = g_stack_garbage_seed;
+  for (volatile uint64_t *p = (volatile uint64_t *)(((uintptr_t)lo + 7) & ~(uintptr_t)7); (char *)(p + 1) <= hi; p++) *p = splitmix64(x);
 }
 // The dead frames of whatever fn ran stay untouched in [range_lo, range_hi)
 // until the next deepcall: harness frames live above range_hi.
@@ -249,7 +253,8 @@ __attribute__((noinline)) static DeepRange deepcall(int task, std::function<void
   r.lo = g_stack[task].lo + 4096;
   r.hi = (char *)(((uintptr_t)&marker - DEEP_KEEP) & ~(uintptr_t)15);
   if (r.hi < r.lo + 65536) crash_exit("machinery", "task stack too small");
-  if (poison) stack_poison(r.lo, r.hi);
+  if (r.hi - r.lo > 262144 && g_stack_garbage_seed) r.lo = r.hi - 262144;   // the garbage variant only needs the part a call can reach
+  if (poison || g_stack_garbage_seed) stack_poison(r.lo, r.hi);
   DeepCall dc{&f};
   deep_inner(deep_tramp, &dc);
   return r;
@@ -320,6 +325,7 @@ struct TaskCtx {
   std::vector<Slot> slots;
   std::vector<void *> owned_strings;    // crypt_gensalt_ra results not yet freed
   const char *last_gensalt_static = nullptr;
+  std::string last_des_out;
   std::map<std::string, std::vector<std::string>> null_rbytes_results;  // C12-3
 };
 struct Run {
@@ -555,6 +561,10 @@ static void leak_check(Run &r, int t, int i, const char *when) {
   }
 }
 
+// a resource the memory ledger does not see: descriptors.  No API call may return with more of them open.
+#include <fcntl.h>
+static int count_open_fds() { int n = 0; for (int fd = 0; fd < 192; fd++) if (fcntl(fd, F_GETFD) != -1) n++; return n; }
+
 // hashing entry points ------------------------------------------------------
 static void exec_hash(Run &r, int t, int i, const J &op) {
   TaskCtx &tc = r.tc[t];
@@ -656,8 +666,10 @@ static void exec_hash(Run &r, int t, int i, const J &op) {
 
   char *ret = nullptr; int err = 0;
   thr::api_boundary(t, i, true);
+  int errno_at_entry = (int)op.i("errno0", 0);
+  int fds_before = count_open_fds();
   DeepRange dr = deepcall(t, [&]() {
-    errno = 0;
+    errno = errno_at_entry;      // arbitrary at entry, as in any real caller
     if (c.kind == "crypt") ret = _crypt_crypt(php, stp);
     else if (c.kind == "crypt_r") ret = _crypt_crypt_r(php, stp, cd);
     else if (c.kind == "crypt_rn") ret = _crypt_crypt_rn(php, stp, small ? (void *)small : (void *)cd, (int)size);
@@ -667,6 +679,8 @@ static void exec_hash(Run &r, int t, int i, const J &op) {
   thr::api_boundary(t, i, false);
   r.cur_pat = nullptr;
   MemLayer::get().end_op(t);
+  if (r.ntasks == 1 && count_open_fds() != fds_before)
+    violation(nullptr, "fd-leak", t, i, vfmt("%s returned with %d more file descriptor(s) open than before the call", c.kind.c_str(), count_open_fds() - fds_before));
 
   c.ret_null = ret == nullptr; c.err = err;
   if (ret) c.res = ret;
@@ -849,9 +863,10 @@ static void exec_gensalt(Run &r, int t, int i, const J &op) {
   ev(vfmt("call t%d op%d %s pf=%s count=%lu rb=%s nrb=%d osz=%d", t, i, kind.c_str(), prefix.null ? "NULL" : prefix.b.c_str(), count,
           rb.null ? "NULL" : hexenc(rb.b).c_str(), nrb, osz));
   char *ret = nullptr; int err = 0;
+  int fds_before = count_open_fds();
   thr::api_boundary(t, i, true);
   DeepRange dr = deepcall(t, [&]() {
-    errno = 0;
+    errno = (int)op.i("errno0", 0);
     if (kind == "gensalt") ret = _crypt_crypt_gensalt(prefix.cstr(), count, rb.cstr(), nrb);
     else if (kind == "gensalt_rn") ret = _crypt_crypt_gensalt_rn(prefix.cstr(), count, rb.cstr(), nrb, outbuf, osz);
     else ret = _crypt_crypt_gensalt_ra(prefix.cstr(), count, rb.cstr(), nrb);
@@ -860,6 +875,8 @@ static void exec_gensalt(Run &r, int t, int i, const J &op) {
   thr::api_boundary(t, i, false);
   (void)dr;
   MemLayer::get().end_op(t);
+  if (r.ntasks == 1 && count_open_fds() != fds_before)
+    violation(nullptr, "fd-leak", t, i, vfmt("%s returned with %d more file descriptor(s) open than before the call", kind.c_str(), count_open_fds() - fds_before));
   bool failed = ret == nullptr;
   std::string res = ret ? ret : "";
   record_result(r, t, i, vfmt("%s -> %s errno=%d", kind.c_str(), failed ? "NULL" : ("\"" + res + "\"").c_str(), failed ? err : 0));
@@ -1019,6 +1036,7 @@ static void exec_des(Run &r, int t, int i, const J &op) {
   }
   if (kind == "encrypt" || kind == "encrypt_r") {
     std::string blk; hexdec(op.str("blk"), blk); blk.resize(64);
+    if (op.i("chain") && tc.last_des_out.size() == 64) { blk = tc.last_des_out; for (auto &ch : blk) ch = (char)((ch & 1) | 0x54); }   // the previous output, with noise bits
     int flag = (int)op.i("flag");
     DataObj *obj = kind == "encrypt_r" ? &tc.objs.at((size_t)op.i("obj")) : nullptr;
     std::vector<char> bb(blk.begin(), blk.end());
@@ -1032,6 +1050,7 @@ static void exec_des(Run &r, int t, int i, const J &op) {
     thr::api_boundary(t, i, false);
     thr::region_del(bb.data());
     std::string out(bb.begin(), bb.end());
+    tc.last_des_out = out;
     record_result(r, t, i, kind + " -> " + hexenc(out));
     int ks = obj ? obj->key_state : r.skey_state;
     const unsigned char *key = obj ? obj->key : r.skey;
@@ -1216,7 +1235,9 @@ static RunOut run_plan(const J &plan, uint64_t fill_override, bool use_override)
     if (!r.tc[t].slots.empty()) thr::region_add(r.tc[t].slots.data(), r.tc[t].slots.size() * sizeof(Slot), t, "ra-slot");
   }
 
+  g_stack_garbage_seed = (p == "C07") ? (env.fill_seed * 0x9e3779b97f4a7c15ULL | 1) : 0;
   thr::run_tasks(r.ntasks, task_body, &r, TASK_STACK_SIZE);
+  g_stack_garbage_seed = 0;
 
   g_phase = "teardown";
   // end of history: the caller frees what it owns, exactly once; then nothing may be live
